@@ -338,6 +338,20 @@ impl Parser {
             return Err(vec![new_err(ident_span, &input.user_data().get_source_file_name(), format!("This name is already in scope (Hint: `{}: {} = ...` was declared somewhere above)", ident.name(), has_been_declared.ty().unwrap()))]);
         }
 
+        let collides_with_generated_label = ident.name() == "__module__"
+            || ident
+                .name()
+                .strip_prefix("__fn")
+                .is_some_and(|rest| !rest.is_empty() && rest.bytes().all(|b| b.is_ascii_digit()));
+
+        if collides_with_generated_label {
+            return Err(vec![new_err(ident_span, &input.user_data().get_source_file_name(), format!("`{}` is the label the compiler gives to its own code; pick another name for this class", ident.name()))]);
+        }
+
+        if !input.user_data().register_class_name(ident.name()) {
+            return Err(vec![new_err(ident_span, &input.user_data().get_source_file_name(), format!("this module already has a class named `{}`; the classes of a module must have distinct names, even if they are declared in different functions or blocks", ident.name()))]);
+        }
+
         let body_node = children.next().unwrap();
 
         let (body, class_type) = {
